@@ -51,6 +51,10 @@ func (c *checker) allowed(doc string) bool {
 	if !ok {
 		return false
 	}
+	if extra, _, readable := unsignedMembers(doc); readable && len(extra) > 0 {
+		// members after the signature that nothing covers (forge.go)
+		return false
+	}
 	var sm map[string]any
 	sig := ""
 	if json.Unmarshal([]byte("{"+doc[i+1:]), &sm) == nil {
@@ -284,6 +288,28 @@ func (c *checker) consumers() {
 			add("separator-variant", T+`, "camliSig":"`+S+tail)
 			add("unsigned", b.J)
 			add("unsigned", T+"}")
+			// members appended after the signature: payload and signature untouched, but a JSON reader
+			// of the blob (the indexer's schema parser) sees the appended values
+			for _, x := range []string{`,"value":"evil"`, `, "claimType": "del-attribute"`, `,"permaNode":"` + pn2.Ref.String() + `"`, `,"target":"` + pn2.Ref.String() + `"`,
+				`,"claimDate":"2031-01-01T00:00:00Z"`, `,"camliType":"permanode"`, `,"x":{"y":1}`, ` , "attribute" : "tag" , "value" : "evil" `} {
+				add("members-after-signature", T+sep+S+`"`+x+"}\n")
+			}
+			// a signature packet by the other key that states another public-key algorithm (forge.go)
+			var origValue []byte
+			if l, ok := layoutOf(packet); ok && len(l.rest) > 4 {
+				origValue = l.rest[4:]
+			}
+			flipped := strings.Replace(T, b.flipFrom, b.flipTo, 1)
+			for fn, f := range c.algoForgeries(flipped, k, []*keyInfo{other}, b.t, origValue, len(id)) {
+				if strings.HasPrefix(f.name, "algo-3-") || strings.HasPrefix(f.name, "algo-17-") || fn%7 == 0 {
+					add("algo-confusion", flipped+sep+encodeSig(f.packet)+tail)
+				}
+			}
+			for _, f := range c.algoForgeries(T, k, []*keyInfo{other}, b.t, origValue, len(id)) {
+				if strings.HasPrefix(f.name, "algo-3-RSA-sign-only/SHA256/issuer-victim/") {
+					add("algo-confusion", T+sep+encodeSig(f.packet)+tail)
+				}
+			}
 			step := max(1, len(signed)/64)
 			for p := 0; p < len(signed); p += step {
 				bs := []byte(signed)
@@ -370,7 +396,8 @@ func (c *checker) consumers() {
 	if c.only == "" {
 		r.Require("consumer_positive_controls", "index:set-attribute", "index:delete", "sigverify:set-attribute", "sigverify:delete")
 		r.Require("consumer_crafted_variants", "unhashed-issuer-appended:other-key", "unhashed-issuer-prepended:other-key", "unhashed-issuer-only:other-key", "unhashed-issuer+fingerprint:other-key")
-		r.Require("consumer_mutation_classes", "payload-flip", "payload-extend", "swap-signer", "resign-other-key", "text-mode-sig", "transplant-sig", "double-sig", "packet-byte", "armor-truncate", "unsigned", "subst", "delete")
+		r.Require("consumer_mutation_classes", "payload-flip", "payload-extend", "swap-signer", "resign-other-key", "text-mode-sig", "transplant-sig", "double-sig", "packet-byte", "armor-truncate", "unsigned", "subst", "delete",
+			"members-after-signature", "algo-confusion")
 	}
 }
 
